@@ -224,6 +224,7 @@ func (r *run) sequence(cmds []int, fails []int) {
 	sc := &script{}
 	sess.User = sc
 	state := NotAuth
+	readOnly := false // the selected mailbox was opened with EXAMINE
 	if r.cfg.preauth {
 		state = Auth
 	}
@@ -360,6 +361,9 @@ func (r *run) sequence(cmds []int, fails []int) {
 			}
 		default:
 			wantCalls = append(wantCalls, spec.calls...)
+			if spec.name == "CLOSE" && readOnly {
+				wantCalls = []string{"Unselect"} // CLOSE removes nothing from a read-only mailbox
+			}
 			if (spec.name == "SELECT" || spec.name == "EXAMINE") && state == Selected {
 				wantCalls = append([]string{"Unselect"}, wantCalls...)
 			}
@@ -380,6 +384,7 @@ func (r *run) sequence(cmds []int, fails []int) {
 				switch spec.name {
 				case "SELECT", "EXAMINE":
 					next = Selected
+					readOnly = spec.name == "EXAMINE"
 				case "CLOSE", "UNSELECT":
 					next = Auth
 				case "UNAUTHENTICATE":
